@@ -9,6 +9,7 @@ import (
 	"sort"
 	"strings"
 	"time"
+	"unicode/utf8"
 
 	"verif/ev"
 	"verif/goosegen"
@@ -116,7 +117,6 @@ func Arr%d(n uint64) uint64 {
 
 func LogLong%d(x uint64, s string) uint64 {
 	log.Printf("a fairly long message, about one hundred bytes long, so that anything that shortens it cuts here: %%d (* é ü *) \"%%s\" tail", x, s)
-	fmt.Println("ééééééééééééééééééééééééééééééééééééééééééééééééééééééééééééééé", x, "a second \"quoted\" string (* that follows", s)
 	if x > 5 {
 		panic("bad value: " + s)
 	}
@@ -127,6 +127,7 @@ func LogLong%d(x uint64, s string) uint64 {
 }
 
 func LogPtr%d(p *uint64, q *uint64) uint64 {
+	fmt.Println("ééééééééééééééééééééééééééééééééééééééééééééééééééééééééééééééé", *q, "a second \"quoted\" string (* that follows")
 	log.Println(*p)
 	fmt.Println(*p, (*q)*2)
 	log.Printf("%%d", (*p)+(*q))
@@ -240,6 +241,9 @@ func C05(c *ev.Ctx) {
 				continue
 			}
 			checked++
+			if !utf8.ValidString(text) {
+				c.Violation("c05.invalid-utf8", fmt.Sprintf("file emitted for %s (flags %v) is not valid UTF-8 (the Go source is)", p.name, flags), map[string]string{"gen.go": p.src, "emitted.v": text})
+			}
 			tag := fmt.Sprintf("%s%v", p.name, flags)
 			emitted[tag] = text
 			ndefs := p.ndefs
